@@ -37,7 +37,7 @@ Proof.
 Qed.
 
 Definition fmap {A B} (f : A -> B) (c : fres A) : fres B :=
-  match c with FRet a => FRet (f a) | FNone => FNone | FRaised e => FRaised e | FNonInt => FNonInt end.
+  match c with FRet a => FRet (f a) | FNone => FNone | FRaised e => FRaised e | FNonInt => FNonInt | FOutOfFuel => FOutOfFuel end.
 
 Lemma bits_len_test p q : (Z.of_nat (length (obits (fresh p))) =? Z.of_nat (length (obits (fresh q)))) = Nat.eqb (length (bits p)) (length (bits q)).
 Proof. cbn. destruct (Nat.eqb_spec (length (bits p)) (length (bits q))); lia. Qed.
